@@ -1121,6 +1121,11 @@ class Molecules:
             feat = other.features
         else:
             feat = pl.concat([self.features, other.features], how="diagonal")
+            if len(other.features.columns) == 0 and other.count() > 0:
+                # molecules without features: fill with null to keep the row count
+                feat = pl.concat(
+                    [feat, feat.clear(other.count())], how="vertical"
+                )
             if len(feat.columns) != len(self.features.columns):
                 extra = set(other.features.columns) - set(self.features.columns)
                 raise ValueError(
